@@ -137,7 +137,7 @@ package mat
 //@   bind S ring, Field ringS
 //@   nopanic
 //@   requires aug.rows() > 0 && aug.cols() > 0 && len(aug.data()) == aug.rows() * aug.cols()
-//@   requires forall r, c int :: aug.idx(r, c) == r * aug.cols() + c
+//@   requires forall r, c int :: 0 <= r && r < aug.rows() && 0 <= c && c < aug.cols() ==> aug.idx(r, c) == r * aug.cols() + c
 //@   ensures err == nil ==> len(result) == aug.cols() - 1
 //@   loop for(pc < numVars && pivotRow < rows)
 //@     invariant 0 <= pivotRow && pivotRow <= rows && pivotRow <= pc && 0 <= pc && pc <= numVars
